@@ -253,9 +253,47 @@ def _norm_when(it):
     return it
 
 
+def _position_tables(v, d, it):
+    """Inside a comprehension over `it` (element $d): a lookup T[$d.a] / test `$d.a in T` in a table
+    T = {y.a: position of y among the elements of `it` satisfying c} is that position / that condition
+    (keys are assumed unique, as names of atoms are)."""
+    if not isinstance(v, tuple) or not v:
+        return v
+
+    def table(t):
+        t = _unwrap_seq(t)
+        if t[0] == "comp" and len(t[3]) == 1 and not t[4] and t[3][0][0] == "kv":
+            k, x = t[3][0][1], t[3][0][2]
+            if k[0] == "attr" and k[1] == ("bv", t[1]) and x[0] == "idx" and x[1] == t[1]:
+                base, c, df = _filtered_base(t[2])
+                if df is None:
+                    base, c, df = t[2], C(True), t[1]
+                if base == it:
+                    return k[2], x[2], rename_binder(c, df, d)
+        return None
+
+    if v[0] == "sub" and v[2][0] == "attr" and v[2][1] == ("bv", d):
+        tb = table(v[1])
+        if tb is not None and tb[0] == v[2][2]:
+            return ("cidx", d, tb[1], tb[2]) if tb[2] != C(True) else ("idx", d, tb[1])
+    if v[0] == "cmp" and v[1] in ("in", "not in") and v[2][0] == "attr" and v[2][1] == ("bv", d):
+        tb = table(v[3])
+        if tb is not None and tb[0] == v[2][2]:
+            return tb[2] if v[1] == "in" else mk_not(tb[2])
+    if v[0] in ("comp", "fold") and len(v) > 1 and v[1] == d:
+        return v
+    new = tuple(_position_tables(x, d, it) for x in v)
+    return renorm_deep(new) if new != v else v
+
+
 def mk_comp(d, it, items, conds=()):
-    items = tuple(_norm_when(i) for i in items)
     it = _unwrap_seq(it)
+    if has(items, "kv") or has(conds, "kv"):
+        items = tuple(_position_tables(i, d, it) for i in items)
+        conds = tuple(_position_tables(c, d, it) for c in conds)
+    items = tuple(_norm_when(i) for i in items)
+    if items == (("bv", d),) and not conds and it[0] in ("list", "comp"):
+        return it  # the identity comprehension
     if len(conds) > 1:
         allc = C(True)
         for c_ in conds:
@@ -956,7 +994,7 @@ class AV:
             a, b = e1.get(k), e2.get(k)
             if a == b:
                 out[k] = a
-            elif k.startswith("<"):
+            elif k.startswith("<") and k != "<yield>":
                 out[k] = a if a is not None else b
             elif a is None or b is None:
                 out[k] = mk_if(cond, a if a is not None else unk(f"{k} unbound"), b if b is not None else unk(f"{k} unbound"))
@@ -1476,10 +1514,20 @@ class AV:
             return mk_sub(base, C(self._namedtuples()[cls].index(name)))
         return _attr(base, name)
 
-    def _comp(self, n, elt, fr: Frame):
-        if len(n.generators) != 1:
-            return unk("nested comprehension")
-        g = n.generators[0]
+    def _comp(self, n, elt, fr: Frame, gens=None):
+        gens = list(n.generators) if gens is None else gens
+        if len(gens) > 1:
+            # [e for x in A for y in B(x)] is the flat-map of the inner comprehension over the outer one
+            g0 = gens[0]
+            d0 = fr.binder + 1
+            it0 = self._ev(g0.iter, fr)
+            it0, idx0 = self._iter(it0, d0)
+            inner0 = Frame(fr.func, fr.rel, dict(fr.env), fr.depth, d0)
+            self._bind_loop_target(g0.target, it0, idx0, d0, inner0)
+            conds0 = tuple(self._truth(self._ev(c, inner0)) for c in g0.ifs)
+            sub = self._comp(n, elt, inner0, gens[1:])
+            return mk_comp(d0, it0, (("spread", sub),), conds0)
+        g = gens[0]
         d = fr.binder + 1
         it = self._ev(g.iter, fr)
         it, idx = self._iter(it, d)
@@ -2061,6 +2109,12 @@ class AV:
             return unk("inlining depth")
         if isinstance(node, ast.Lambda):
             return self._ev(node.body, sub)
+        if any(isinstance(x, (ast.Yield, ast.YieldFrom)) for x in walk_no_nested(node)):
+            sub.env["<yield>"] = ("list", ())
+            r = self._body(node.body, sub)
+            if not (r is _FALL or r is None or r == NONE):
+                return unk("generator with an exit that is not understood")
+            return sub.env.get("<yield>", unk("generator"))
         r = self._body(node.body, sub)
         if same_scope:
             for m_ in _mutated_names(node.body):
